@@ -8,13 +8,14 @@ CFG = {
     "theorems": [T + n for n in [
         "C10_structure", "C10_map_vertices", "C10_vertex_i", "C10_nil_identity", "C10_error_no_panic",
         "C10_pure", "C10_pure_last", "C10_pure_states", "C10_history_state", "C10_step_state_eq",
-        "C10_no_index_fault", "C10_no_panic",
+        "C10_no_index_fault", "C10_no_panic", "C10_input_unchanged_partial",
     ]],
     "trusted_base": [
         "Lean 4.33.0 kernel; axioms of every theorem printed by #print axioms must be within {propext, Classical.choice, Quot.sound}",
+        "Mem.lean (memory model behind C10_input_unchanged_partial) covers the point-slice loop only and is not executed against the code; the input-untouched clause is tied by the before/after/scribble comparison of the real slices on every gt line",
         "model lean/GeomV/C10/{GeomTransform,Transformer}.lean is tied to /repo/transform.go and /repo/proj/{transform,adjust_axis}.go by the correspondence run on every check: "
         "Geom.Transform results compared exactly (bit patterns); transformer results compared bit-for-bit with the model instantiated by oracle tables "
-        "(projection forward/inverse, datumTransform, constructor errors) filled from the real code through the exported API, and the SR objects' full "
+        "(projection forward/inverse, constructor errors through the exported API; datumTransform through hook proj.VerifDatumTransform, build tag verif) filled from the real code, and the SR objects' full "
         "field dumps (reflection, unexported datum included) compared after every call with 'as parsed' / 'as left by one constructor run'",
         "the hypothesis CoreOK of C10_pure (re-running a projection constructor on an initialised SR changes nothing; it never writes Name/Axis/ToMeter/"
         "FromGreenwich/DatumCode/datum; datumTransform leaves the datums as found) is not proved about the Go constructors: it is checked on the real "
